@@ -141,6 +141,21 @@ def finish(ctx: Ctx, rule="R-C03-FINISH") -> None:
               "rabbitmq finish() does not reject every locally queued message by its delivery tag and await the rejects", instance="rabbitmq finish")
     ctx.check(len(cancel) == 1 and cancel[0].id in await_map(g) and all(flow.must_pass(g, g.entry.id, [x.id], [cancel[0].id], flow.NORMAL_KINDS) for x in gets), rule, f,
               "rabbitmq finish: consumer cancelled on the server before draining", "basic_cancel first", "rabbitmq finish() drains without cancelling the server-side consumer first", instance="rabbitmq finish: cancel first")
+    # the consumer protocol: entering starts, leaving finishes (Queue.get_messages relies on it), iteration consumes
+    for meth, want in (("__aenter__", "start"), ("__aexit__", "finish"), ("__anext__", "consume")):
+        mf = ctx.func(f"{C.CONS}.{meth}")
+        aw_calls = [a.value for a in ast.walk(mf.node) if isinstance(a, ast.Await) and isinstance(a.value, ast.Call)]
+        ok = len(aw_calls) == 1 and dotted(aw_calls[0].func) == f"self.{want}"
+        if meth == "__anext__":
+            rets = [r for r in ast.walk(mf.node) if isinstance(r, ast.Return)]
+            ok = ok and len(rets) == 1 and isinstance(rets[0].value, ast.Await) and rets[0].value.value is aw_calls[0]
+        ctx.check(ok, rule, mf, f"ConsumerT.{meth} awaits {want}()", f"await self.{want}()", f"ConsumerT.{meth} does not await self.{want}() (prefetched messages are not returned when a queue iteration ends)"
+                  if want == "finish" else f"ConsumerT.{meth} does not await self.{want}()", instance=f"ConsumerT.{meth}")
+    qm = ctx.func("repid.queue.Queue.get_messages")
+    aw = [n for n in ast.walk(qm.node) if isinstance(n, ast.AsyncWith)]
+    ok = len(aw) == 1 and any(isinstance(x, ast.AsyncFor) for x in ast.walk(aw[0])) and dotted(aw[0].items[0].context_expr) == "consumer"
+    ctx.check(ok, rule, qm, "Queue.get_messages iterates inside `async with consumer`", "the consumer is finished when the iteration ends, however it ends",
+              "Queue.get_messages does not iterate its consumer inside `async with consumer`: messages it had prefetched stay in flight when the caller stops iterating", instance="get_messages uses the context manager")
     # in-memory: covered by inmem_consume_rules (R-C03-FINISH instance there)
     inmem_consume_rules(ctx, rule_t="R-C01-TRANSFER", rule_a="R-C01-ATOMIC")
 
